@@ -259,10 +259,17 @@ def prove(ctx: Ctx, pid: str, extra_targets: list[str] | None = None, gen_info: 
             # `uses`: names of the generated definitions/tables this property depends on (None = all)
             if uses is None or any(fn.startswith(u + ":") or fn.startswith(f"table {u}:") for u in uses):
                 ctx.broke(f"T1:{fn.split(':')[0]}", f"translator refused: {fn}")
-        ok, out = lake_build([f"SparseV.Props.{pid}", "svdriver"] + (extra_targets or []))
+        # two separate builds: this property's obligations depend on its own theorem files only; the driver is shared by
+        # all twenty checks and links every model, so a model of ANOTHER property that stops building (a translated
+        # fragment refused or reshaped after a change to /repo) must not take this property's proofs down with it
+        ok, out = lake_build([f"SparseV.Props.{pid}"] + (extra_targets or []))
         ctx.notes["lake_build_ok"] = ok
         if not ok:
             ctx.notes["lake_build_log"] = out[-3000:]
+        ok_drv, out_drv = lake_build(["svdriver"])
+        ctx.notes["driver_build_ok"] = ok_drv
+        if not ok_drv:
+            ctx.notes["driver_build_log"] = out_drv[-1500:]
         thms = expected_theorems(pid)
         ctx.obligations = thms
         axioms, txt = audit(pid) if ok else ({}, out)
@@ -279,7 +286,7 @@ def prove(ctx: Ctx, pid: str, extra_targets: list[str] | None = None, gen_info: 
         if bad:
             ctx.broke("audit:forbidden-tokens", "; ".join(bad[:5]))
         ctx.notes["forbidden_tokens"] = bad
-        driver_ok = DRIVER.exists() and ok
+        driver_ok = DRIVER.exists() and ok_drv
         if not driver_ok:
             # proof side is down: build the driver against the committed reference copy for execution only
             ctx.notes["driver_fallback"] = "Generated.ref"
